@@ -46,6 +46,12 @@ func c12a(c *Ctx) {
 			return true
 		}
 		recv := call.Fun.(*ast.SelectorExpr).X
+		// same variable of the same table: compared after resolving single-definition locals
+		// (`nameS = string(name)`, `vars := tree.p.Variables`), so spelling differences do not matter
+		sameNameAndTable := func(dc *ast.CallExpr) bool {
+			return c.sameExpr(defs.resolve1(info, dc.Args[0]), defs.resolve1(info, call.Args[0])) &&
+				c.sameExpr(defs.resolve1(info, dc.Fun.(*ast.SelectorExpr).X), defs.resolve1(info, recv))
+		}
 		// is e the data type of the same variable?
 		isTypeOfSame := func(e ast.Expr) bool {
 			r := defs.resolve1(info, e)
@@ -59,16 +65,14 @@ func c12a(c *Ctx) {
 						continue
 					}
 					dc, ok := unparen(d).(*ast.CallExpr)
-					if !ok || !callIs(info, dc, langP, "Variables", "GetDataType") || len(dc.Args) != 1 ||
-						!c.sameExpr(dc.Args[0], call.Args[0]) || !c.sameExpr(dc.Fun.(*ast.SelectorExpr).X, recv) {
+					if !ok || !callIs(info, dc, langP, "Variables", "GetDataType") || len(dc.Args) != 1 || !sameNameAndTable(dc) {
 						okAll = false
 					}
 				}
 				return okAll
 			}
 			dc, ok := r.(*ast.CallExpr)
-			return ok && callIs(info, dc, langP, "Variables", "GetDataType") && len(dc.Args) == 1 &&
-				c.sameExpr(dc.Args[0], call.Args[0]) && c.sameExpr(dc.Fun.(*ast.SelectorExpr).X, recv)
+			return ok && callIs(info, dc, langP, "Variables", "GetDataType") && len(dc.Args) == 1 && sameNameAndTable(dc)
 		}
 		var bad []string
 		found := false
@@ -160,6 +164,36 @@ func c12a(c *Ctx) {
 		return true
 	})
 	c.MinCount("R12a", "return statements in getVar", nRet, 3)
+	// `value = v` with v another local of getVar: v's own origins are what is returned
+	isLocalVar := func(e ast.Expr) types.Object {
+		id, ok := unparen(e).(*ast.Ident)
+		if !ok {
+			return nil
+		}
+		v, ok := info.ObjectOf(id).(*types.Var)
+		if !ok || v.IsField() || isParam(info, fd, id) || v.Pos() < fd.Body.Pos() || v.Pos() > fd.Body.End() {
+			return nil
+		}
+		return v
+	}
+	for changed := true; changed; {
+		changed = false
+		ast.Inspect(fd.Body, func(n ast.Node) bool {
+			as, ok := n.(*ast.AssignStmt)
+			if !ok || len(as.Rhs) != len(as.Lhs) {
+				return true
+			}
+			for i, l := range as.Lhs {
+				if id, ok := l.(*ast.Ident); ok && retObjs[info.ObjectOf(id)] {
+					if o := isLocalVar(as.Rhs[i]); o != nil && !retObjs[o] {
+						retObjs[o] = true
+						changed = true
+					}
+				}
+			}
+			return true
+		})
+	}
 	nAsg := 0
 	seen := map[string]int{}
 	ast.Inspect(fd.Body, func(n ast.Node) bool {
@@ -182,6 +216,10 @@ func c12a(c *Ctx) {
 			}
 			name := "getVar:origin"
 			seen[name]++
+			if rhs != nil && len(as.Rhs) == len(as.Lhs) && isLocalVar(rhs) != nil && retObjs[isLocalVar(rhs)] {
+				c.OK("R12a", name+"#"+itoa(seen[name]), as.Pos(), "copy of local %s whose own origins are checked", c.src(rhs))
+				continue
+			}
 			c12Origin(c, info, name+"#"+itoa(seen[name]), rhs, as, idx, guardedGet)
 		}
 		return true
@@ -283,6 +321,9 @@ func c12IsSplit0(info *types.Info, e ast.Expr, splitObj types.Object) bool {
 
 func c12bSite(c *Ctx, info *types.Info, fd *ast.FuncDecl, call *ast.CallExpr, stack []ast.Node) {
 	langP := mx("lang")
+	// single-definition locals (`name, nested := split[0], split[1:]`) stand for their definition
+	fdefs := localDefs(info, fd.Body)
+	res := func(e ast.Expr) ast.Expr { return fdefs.resolve1(info, e) }
 	if len(call.Args) != 4 {
 		c.Undecided("R12b", "Set:Alter:args", call.Pos(), "alter.Alter arity changed")
 		return
@@ -356,7 +397,7 @@ func c12bSite(c *Ctx, info *types.Info, fd *ast.FuncDecl, call *ast.CallExpr, st
 				if lid, ok := l.(*ast.Ident); ok && info.ObjectOf(lid) == o {
 					if len(a.Rhs) == 1 {
 						if gc, ok := unparen(a.Rhs[0]).(*ast.CallExpr); ok && callIs(info, gc, langP, "Variables", "getValue") &&
-							len(gc.Args) == 1 && c12IsSplit0(info, gc.Args[0], splitObj) && selPath(gc.Fun.(*ast.SelectorExpr).X) == recvVar(fd) {
+							len(gc.Args) == 1 && c12IsSplit0(info, res(gc.Args[0]), splitObj) && selPath(gc.Fun.(*ast.SelectorExpr).X) == recvVar(fd) {
 							docOK = true
 						}
 					}
@@ -367,7 +408,7 @@ func c12bSite(c *Ctx, info *types.Info, fd *ast.FuncDecl, call *ast.CallExpr, st
 		}
 	}
 	c.Check(docOK, "R12b", "Set:Alter:document", call.Args[1].Pos(), "the object handed to alter.Alter (%s) must be this table's stored value of split[0] (v.getValue(split[0])); otherwise the nested assignment edits some other document", c.src(call.Args[1]))
-	c.Check(c12IsSplit(c, info, call.Args[2], splitObj, 1), "R12b", "Set:Alter:path", call.Args[2].Pos(), "alter.Alter's path argument is %s; it must be split[1:] (the path below the variable name) or a different element than `$v.path` is changed", c.src(call.Args[2]))
+	c.Check(c12IsSplit(c, info, res(call.Args[2]), splitObj, 1), "R12b", "Set:Alter:path", call.Args[2].Pos(), "alter.Alter's path argument is %s; it must be split[1:] (the path below the variable name) or a different element than `$v.path` is changed", c.src(call.Args[2]))
 	valOK := false
 	if id, ok := unparen(call.Args[3]).(*ast.Ident); ok && isParam(info, fd, id) && types.Identical(info.TypeOf(id), types.Universe.Lookup("any").Type()) {
 		valOK = true
@@ -493,13 +534,13 @@ func c12bSite(c *Ctx, info *types.Info, fd *ast.FuncDecl, call *ast.CallExpr, st
 		return
 	}
 	c.Check(selPath(setCall.Fun.(*ast.SelectorExpr).X) == recvVar(fd), "R12b", "Set:set:receiver", setCall.Pos(), "v.set must be called on Set's own receiver (same variable table the document came from)")
-	c.Check(c12IsSplit0(info, setCall.Args[1], splitObj), "R12b", "Set:set:name", setCall.Args[1].Pos(), "v.set stores under %s; it must be split[0], the variable that was altered", c.src(setCall.Args[1]))
+	c.Check(c12IsSplit0(info, res(setCall.Args[1]), splitObj), "R12b", "Set:set:name", setCall.Args[1].Pos(), "v.set stores under %s; it must be split[0], the variable that was altered", c.src(setCall.Args[1]))
 	isRes := false
 	if id, ok := unparen(setCall.Args[2]).(*ast.Ident); ok && info.ObjectOf(id) == resObj {
 		isRes = true
 	}
 	c.Check(isRes, "R12b", "Set:set:value", setCall.Args[2].Pos(), "v.set stores %s; it must store the whole document returned by alter.Alter (storing anything else drops every other path of `$v`)", c.src(setCall.Args[2]))
-	c.Check(c12IsSplit(c, info, setCall.Args[4], splitObj, 1), "R12b", "Set:set:changePath", setCall.Args[4].Pos(), "v.set's changePath is %s; it must be split[1:] ($ENV/$GLOBAL/$MOD and MxInterface variables are updated by that path)", c.src(setCall.Args[4]))
+	c.Check(c12IsSplit(c, info, res(setCall.Args[4]), splitObj, 1), "R12b", "Set:set:changePath", setCall.Args[4].Pos(), "v.set's changePath is %s; it must be split[1:] ($ENV/$GLOBAL/$MOD and MxInterface variables are updated by that path)", c.src(setCall.Args[4]))
 	// the set's error must be returned
 	setErrReturned := false
 	switch s := list[setIdx].(type) {
@@ -604,14 +645,17 @@ func c12cd(c *Ctx) {
 					continue
 				}
 				var problems []string
-				ix, ok := unparen(rec.Args[1]).(*ast.IndexExpr)
+				// single-definition locals of the arm (`child := v[k]`, `key := path[i]`, `val := *new`) stand for their definition
+				adefs := localDefs(info, cc)
+				ares := func(e ast.Expr) ast.Expr { return adefs.resolve1(info, e) }
+				ix, ok := ares(rec.Args[1]).(*ast.IndexExpr)
 				if !ok {
 					problems = append(problems, "recursion is not on an element v[k] ("+c.src(rec.Args[1])+")")
 				} else if id, ok := unparen(ix.X).(*ast.Ident); !ok || info.ObjectOf(id) != bound {
 					problems = append(problems, "recursion indexes "+c.src(ix.X)+", not the container matched by this case")
 				}
 				depthOK := false
-				if b, ok := unparen(rec.Args[2]).(*ast.BinaryExpr); ok && b.Op == token.ADD {
+				if b, ok := ares(rec.Args[2]).(*ast.BinaryExpr); ok && b.Op == token.ADD {
 					if v, ok := constInt(info, b.Y); ok && v == 1 && isParamN(b.X, 2) {
 						depthOK = true
 					}
@@ -641,7 +685,7 @@ func c12cd(c *Ctx) {
 								continue
 							}
 							nStore++
-							if !c.sameExpr(lx.Index, ix.Index) {
+							if !c.sameExpr(ares(lx.Index), ares(ix.Index)) {
 								problems = append(problems, "store "+c.src(as)+" writes index "+c.src(lx.Index)+" but the arm descended into index "+c.src(ix.Index))
 							}
 						}
@@ -707,13 +751,28 @@ func c12cd(c *Ctx) {
 								list = b.Body
 							}
 						}
+						// the LAST store to the result in this straight-line list is `ret = <container>`
+						// (before or after the element store: the two statements are independent when the
+						// element stored is not the result itself)
 						found := false
 						for _, s := range list {
-							if a2, ok := s.(*ast.AssignStmt); ok && len(a2.Lhs) == 1 && len(a2.Rhs) == 1 && a2.Pos() > as.Pos() {
-								l, lok := a2.Lhs[0].(*ast.Ident)
-								r, rok := unparen(a2.Rhs[0]).(*ast.Ident)
-								if lok && rok && info.ObjectOf(l) == retObj && info.ObjectOf(r) == bound {
-									found = true
+							a2, ok := s.(*ast.AssignStmt)
+							if !ok {
+								continue
+							}
+							for li, lh := range a2.Lhs {
+								l, lok := lh.(*ast.Ident)
+								if !lok || info.ObjectOf(l) != retObj {
+									continue
+								}
+								found = false
+								if len(a2.Lhs) == len(a2.Rhs) {
+									if r, rok := unparen(a2.Rhs[li]).(*ast.Ident); rok && info.ObjectOf(r) == bound {
+										// a `ret = v` placed before `v[k] = ret` would store the container into itself
+										if a2.Pos() > as.Pos() || !mentions(info, as.Rhs[0], retObj) {
+											found = true
+										}
+									}
 								}
 							}
 						}
@@ -794,7 +853,7 @@ func c12cd(c *Ctx) {
 			}
 			k, ok := constString(info, conv.Args[1])
 			fromNew := false
-			if st, ok := unparen(conv.Args[0]).(*ast.StarExpr); ok && isParamN(st.X, 4) {
+			if st, ok := localDefs(info, cc).resolve1(info, conv.Args[0]).(*ast.StarExpr); ok && isParamN(st.X, 4) {
 				fromNew = true
 			}
 			switch {
